@@ -80,7 +80,10 @@ def main():
             c = subprocess.run([os.path.join(VERIF, "check"), prop, "--tier", args.tier, "--no-selftest", "--no-evidence"], env=env, capture_output=True, text=True)
             sigs = sorted({ln.split("signature=")[1].split()[0] for ln in c.stdout.splitlines() if "signature=" in ln})
             caught = c.returncode == 1 and "VIOLATION property=" in c.stdout
-            results.append({"id": sid, "property": prop, "applies": True, "demo_fails_with_change": None if demo_with is None else demo_with != 0, "demo_passes_without": None if demo_without is None else demo_without == 0, "passes_repo_suite": suite_ok, "caught": caught, "check_exit": c.returncode, "signatures": sigs[:6], "tier": args.tier, "wall_s": round(time.time() - t0, 1)})
+            # a change whose demonstration passes although it is applied no longer breaks the property on
+            # the current tree (a later repair of /repo closed the hole it used)
+            neutralised = (demo_with == 0) if demo_with is not None else meta.get("neutralised_by") is not None
+            results.append({"id": sid, "property": prop, "applies": True, "demo_fails_with_change": None if demo_with is None else demo_with != 0, "demo_passes_without": None if demo_without is None else demo_without == 0, "passes_repo_suite": suite_ok, "caught": caught, "neutralised_on_current_tree": neutralised, "check_exit": c.returncode, "signatures": sigs[:6], "tier": args.tier, "wall_s": round(time.time() - t0, 1)})
             print(f"{sid:28s} {prop} caught={caught} exit={c.returncode} demo_with={demo_with} demo_without={demo_without} suite_ok={suite_ok} {sigs[:3]} {time.time() - t0:.0f}s", flush=True)
             if c.returncode not in (0, 1):
                 print(c.stdout[-1200:], c.stderr[-1200:])
@@ -89,7 +92,7 @@ def main():
     if not args.only:
         with open(args.out, "w") as f:
             json.dump(results, f, indent=1)
-    missed = [r["id"] for r in results if not r.get("caught")]
+    missed = [r["id"] for r in results if not r.get("caught") and not r.get("neutralised_on_current_tree")]
     print(f"{len(results) - len(missed)}/{len(results)} seeded changes caught; missed: {missed}")
     return 0
 
